@@ -174,7 +174,7 @@ func firstLines(s string, n int) string {
 func (ex *executor) finding(v Violation) {
 	if ex.opts.Own == "" || v.Prop == ex.opts.Own {
 		ex.res.Violations = append(ex.res.Violations, v)
-		ex.log.Addf("VIOLATION %s", v.String())
+		ex.log.Addf("VIOLATION %s", firstLines(v.String(), 1))
 		ex.stop = true
 		return
 	}
